@@ -142,6 +142,7 @@ class Unit:
         self.prov = []           # provenance of extracted items
         self.fn_overlays = {}    # qualified name -> info (for vacuity probes / evidence)
         self.stubbed = []        # fns emitted as external_body stubs with contracts
+        self.imprecise = {}         # fns containing a construct this Verus handles imprecisely (spurious failures): qname -> reason
         self.restructured = set()   # fns whose loops no longer map 1:1 onto the overlay's loop signatures
         self.header_uses = ['use vstd::prelude::*;']
         self.active = None       # set of sub-unit names whose bodies are verified (None = all)
@@ -223,6 +224,8 @@ class Unit:
             stats['R15'] += k + k2
         for (pat, rep, cnt) in post_rewrite or []:
             text = self._rewrite(text, pat, rep, cnt, name, stats)
+        text, k18, left18 = rules.r18_auto(text)
+        stats['R18'] += k18
         text, k = rules.r5_pub_item(text)
         # split signature / body
         fnpos = re.search(r'\bfn\b', text).start()
@@ -255,6 +258,8 @@ class Unit:
         info = dict(qname=qname, file=rel, sub=sub, requires=[c.text for c in req],
                     ensures=[(c.tag, c.text) for c in ens], stub=is_stub, sig=sig, props=list(props))
         self.fn_overlays[qname] = info
+        if left18 and not is_stub:
+            self.imprecise[qname] = 'a match guard the extractor cannot lower (R18) remains: this Verus loses the frame of &mut parameters across match guards'
         prov['rules'] = dict(stats)
         prov['stubbed_here'] = is_stub
         prov['name'] = qname
@@ -459,7 +464,7 @@ class Unit:
         # function line ranges in the generated file
         fns = fn_ranges(txt)
         meta = dict(unit=self.name, file=path, tags=tagmap, functions=fns, provenance=self.prov,
-                    stubbed=self.stubbed, overlays=self.fn_overlays, restructured=sorted(self.restructured),
+                    stubbed=self.stubbed, overlays=self.fn_overlays, restructured=sorted(self.restructured), imprecise=self.imprecise,
                     sha256=hashlib.sha256(txt.encode()).hexdigest())
         with open(os.path.join(out_dir, self.name + '.map.json'), 'w') as f:
             json.dump(meta, f, indent=1)
